@@ -72,11 +72,18 @@ type c15Listener struct {
 	ch     chan *c15Conn
 	closed chan struct{}
 	once   sync.Once
+	idx    int
+	rec    *c15Rec
+	begun  chan struct{} // closed when the accept loop calls Accept for the first time
+	bonce  sync.Once
 }
 
 func (l *c15Listener) Accept() (net.Conn, error) {
+	l.bonce.Do(func() { close(l.begun) })
 	select {
 	case c := <-l.ch:
+		// from here until Serve counts it in s.open the connection is in the accept loop's hands
+		l.rec.emit(vfRec{"ev": "ln.accept", "ln": l.idx, "c": c.id})
 		return c, nil
 	case <-l.closed:
 		return nil, io.EOF
@@ -95,6 +102,9 @@ type c15Rec struct {
 	started   map[[2]int]bool // (conn, client request index) whose handler started
 	hstartCh  chan [2]int     // handler starts, for the gates
 	sdDone    bool            // "sd.done" is in the log
+	sdCalled  bool            // Shutdown has been called in this cycle
+	sdRet     bool            // Shutdown has returned nil in this cycle
+	lateStart int             // handlers that started after Shutdown had returned nil
 	scanEnds  int
 	closedBy  map[int]bool // closed by closeIdleConns
 	idleSeen  map[int]int  // last request after which the loop marked the connection idle
@@ -191,7 +201,7 @@ func (r *c15Rec) hook(ev string, o1, o2 any, a, b int) {
 			delete(r.gconn, gid)
 		}
 		r.mu.Unlock()
-	case "srv.h.start", "srv.h.end", "srv.resp":
+	case "srv.h.start", "srv.h.end", "srv.resp", "srv.ctxswap":
 		ctx, ok := o1.(*RequestCtx)
 		if !ok || ctx.s != r.srv {
 			return
@@ -204,7 +214,14 @@ func (r *c15Rec) hook(ev string, o1, o2 any, a, b int) {
 		r.nev++
 		r.tw.Emit(vfRec{"ev": ev, "c": cc.id, "i": a, "m": r.markOf(cc.id)})
 		r.mu.Unlock()
-	case "srv.serve.ret", "sd.stop", "sd.lnclosed", "sd.done", "sd.scan.begin", "sd.scan.end", "sd.return", "sd.wait":
+	case "srv.serve.ret":
+		if s, ok := o1.(*Server); !ok || s != r.srv {
+			return
+		}
+		if ln, ok := o2.(*c15Listener); ok {
+			r.emit(vfRec{"ev": ev, "ln": ln.idx})
+		}
+	case "sd.stop", "sd.lnclosed", "sd.done", "sd.scan.begin", "sd.scan.end", "sd.return", "sd.wait":
 		if s, ok := o1.(*Server); !ok || s != r.srv {
 			return
 		}
@@ -238,8 +255,8 @@ func (r *c15Rec) hook(ev string, o1, o2 any, a, b int) {
 		if cc == nil {
 			return
 		}
-		idle := 0
-		if a != 0 && b-a >= 0 {
+		idle := 0 // a time stamp that is not in the future (0: request in progress, <0 but -1: still a stamp)
+		if a != 0 && a != -1 && b-a >= 0 {
 			idle = 1
 		}
 		r.emit(vfRec{"ev": ev, "c": cc.id, "idle": idle, "t": a})
@@ -267,7 +284,8 @@ func (r *c15Rec) hook(ev string, o1, o2 any, a, b int) {
 }
 
 type c15Batch struct {
-	k      int // 1 or 2 (pipelined) requests in one write
+	kind   [2]string // "" normal | "t": answered through ctx.TimeoutError | "h": through TimeoutHandler
+	k      int       // 1 or 2 (pipelined) requests in one write
 	d      [2]int
 	pause  int // microseconds of keep-alive idling afterwards
 	waitOn bool
@@ -278,6 +296,8 @@ type c15Cfg struct {
 	cos    bool   // CloseOnShutdown
 	nconns int
 	sdAt   int // microseconds before Shutdown is called
+	lnSeed int // bit cyc: the Server serves two listeners in that cycle
+	gateLn int // gate A: listener whose accept loop is parked
 	cycles int // serve / shutdown cycles on the one Server object (reuse); a gate applies to the last one
 }
 
@@ -287,6 +307,7 @@ type c15Client struct {
 	sent     int
 	received map[int]bool
 	eof      bool
+	gaveUp   bool
 	err      string
 }
 
@@ -295,6 +316,7 @@ func c15RunOne(t *testing.T, rng *rand.Rand, tw *vfTraceWriter, trNo int, cfg c1
 	rec.resetCycle()
 	var running atomic.Int32
 	var doneViol, doneNever atomic.Int32
+	timeoutWrapped := TimeoutHandler(func(ctx *RequestCtx) { time.Sleep(2 * time.Millisecond) }, 200*time.Microsecond, "timed out by TimeoutHandler")
 	handler := func(ctx *RequestCtx) {
 		cc := c15ConnOf(ctx.Conn())
 		idx, _ := strconv.Atoi(string(ctx.Request.Header.Peek("X-Idx")))
@@ -302,6 +324,9 @@ func c15RunOne(t *testing.T, rng *rand.Rand, tw *vfTraceWriter, trNo int, cfg c1
 		if cc != nil {
 			rec.mu.Lock()
 			rec.started[[2]int{cc.id, idx}] = true
+			if rec.sdRet {
+				rec.lateStart++ // Shutdown has returned nil, and yet a request handler starts
+			}
 			rec.mu.Unlock()
 			select {
 			case rec.hstartCh <- [2]int{cc.id, idx}:
@@ -328,6 +353,12 @@ func c15RunOne(t *testing.T, rng *rand.Rand, tw *vfTraceWriter, trNo int, cfg c1
 		}
 		ctx.Response.Header.Set("X-Idx", strconv.Itoa(idx))
 		ctx.SetBodyString("ok")
+		switch string(ctx.Path()) {
+		case "/t": // the handler answers through TimeoutError: the loop goes on with a fresh RequestCtx
+			ctx.TimeoutError("timed out by the handler")
+		case "/h": // through TimeoutHandler, whose timer fires while the wrapped handler sleeps on
+			timeoutWrapped(ctx)
+		}
 		// Done must be closed for every handler that is still running once shutdown has begun
 		rec.mu.Lock()
 		began := rec.sdDone
@@ -342,8 +373,23 @@ func c15RunOne(t *testing.T, rng *rand.Rand, tw *vfTraceWriter, trNo int, cfg c1
 		running.Add(-1)
 	}
 	s := &Server{Handler: handler, CloseOnShutdown: cfg.cos, Logger: c15NopLogger{}, NoDefaultServerHeader: true}
+	// ConnState(StateNew) is called by the accept loop between Accept and the s.open.Add(1) of the
+	// connection: the gate "A" parks the accept loop exactly there
+	s.ConnState = func(c net.Conn, st ConnState) {
+		if st != StateNew || rec.gate != "A" {
+			return
+		}
+		if cc := c15ConnOf(c); cc != nil && rec.gateFired.CompareAndSwap(false, true) {
+			close(rec.gateHit)
+			select {
+			case <-rec.gateCh:
+			case <-time.After(8 * time.Second):
+			}
+		}
+	}
 	rec.srv = s
-	tw.Emit(vfRec{"ev": "init", "nc": 4, "maxreq": 8, "cos": map[bool]int{false: 0, true: 1}[cfg.cos], "tr": trNo, "mode": cfg.mode})
+	nl1 := c15NumListeners(cfg, 1)
+	tw.Emit(vfRec{"ev": "init", "nc": 4, "nlmax": 2, "nl": nl1, "maxreq": 8, "cos": map[bool]int{false: 0, true: 1}[cfg.cos], "tr": trNo, "mode": cfg.mode})
 	VerifHook = rec.hook
 	defer func() { VerifHook = nil }()
 	if cfg.cycles < 1 {
@@ -358,7 +404,7 @@ func c15RunOne(t *testing.T, rng *rand.Rand, tw *vfTraceWriter, trNo int, cfg c1
 		if cyc > 1 {
 			// the Server object is reused: Serve again on a new listener after Shutdown returned nil
 			rec.resetCycle()
-			rec.emit(vfRec{"ev": "serve.again", "cycle": cyc})
+			rec.emit(vfRec{"ev": "serve.again", "cycle": cyc, "nl": c15NumListeners(cfg, cyc)})
 		}
 		nreq, key, detail, stop := c15Cycle(rng, rec, s, cfg, mode, cyc, &running, &doneViol, &doneNever)
 		totalReq += nreq
@@ -367,8 +413,17 @@ func c15RunOne(t *testing.T, rng *rand.Rand, tw *vfTraceWriter, trNo int, cfg c1
 			return rec.nev, totalReq, key, detail
 		}
 	}
+	rec.emit(vfRec{"ev": "exec.end"})
 	VerifHook = nil
 	return rec.nev, totalReq, "", ""
+}
+
+// c15NumListeners: listeners (concurrent Serve calls) of the Server in cycle cyc
+func c15NumListeners(cfg c15Cfg, cyc int) int {
+	if cfg.mode == "gateA" && cyc == cfg.cycles {
+		return 2
+	}
+	return 1 + (cfg.lnSeed>>uint(cyc))&1
 }
 
 // resetCycle clears the per-cycle bookkeeping (no goroutine of the previous cycle is left).
@@ -381,6 +436,8 @@ func (r *c15Rec) resetCycle() {
 	r.closedBy = map[int]bool{}
 	r.idleSeen = map[int]int{}
 	r.sdDone = false
+	r.sdCalled = false
+	r.sdRet = false
 	r.scanEnds = 0
 	r.gate = ""
 	r.gateFired.Store(false)
@@ -392,27 +449,39 @@ func (r *c15Rec) resetCycle() {
 // c15Cycle runs one serve / clients / Shutdown cycle on s.  stop = true ends the execution (infrastructure
 // problem or a Shutdown error, which the property does not constrain).
 func c15Cycle(rng *rand.Rand, rec *c15Rec, s *Server, cfg c15Cfg, mode string, cyc int, running, doneViol, doneNever *atomic.Int32) (int, string, string, bool) {
-	if mode == "gateB" {
+	switch mode {
+	case "gateA":
+		rec.gate = "A"
+	case "gateB":
 		rec.gate = "B"
-	} else if mode == "gateC" {
+	case "gateC":
 		rec.gate = "C"
 	}
-	ln := &c15Listener{ch: make(chan *c15Conn), closed: make(chan struct{})}
-	serveDone := make(chan error, 1)
-	go func() { serveDone <- s.Serve(ln) }()
-	dl := time.Now().Add(5 * time.Second)
-	for {
-		s.mu.Lock()
-		n := len(s.ln)
-		s.mu.Unlock()
-		if n == 1 && s.open.Load() >= 1 {
-			break
+	nl := c15NumListeners(cfg, cyc)
+	lns := make([]*c15Listener, nl+1)
+	serveDone := make(chan error, nl)
+	for i := 1; i <= nl; i++ {
+		lns[i] = &c15Listener{ch: make(chan *c15Conn), closed: make(chan struct{}), begun: make(chan struct{}), idx: i, rec: rec}
+		// listeners are registered in index order: the Serve calls start one after the other
+		go func(ln *c15Listener) { serveDone <- s.Serve(ln) }(lns[i])
+		dl := time.Now().Add(5 * time.Second)
+		for {
+			s.mu.Lock()
+			n := len(s.ln)
+			s.mu.Unlock()
+			if n == i || time.Now().After(dl) {
+				break
+			}
+			time.Sleep(20 * time.Microsecond)
 		}
-		if time.Now().After(dl) {
+	}
+	for i := 1; i <= nl; i++ { // every accept loop is up (it has counted itself in s.open before its first Accept)
+		select {
+		case <-lns[i].begun:
+		case <-time.After(5 * time.Second):
 			vfInfra("c15: Serve did not start")
 			return 0, "", "", true
 		}
-		time.Sleep(50 * time.Microsecond)
 	}
 
 	clients := make([]*c15Client, cfg.nconns+1)
@@ -429,11 +498,21 @@ func c15Cycle(rng *rand.Rand, rec *c15Rec, s *Server, cfg c15Cfg, mode string, c
 			cl.batches = []c15Batch{{k: 1, pause: 0}, {k: 1, waitOn: true, d: [2]int{30000, 0}}}
 		case "gateC":
 			cl.batches = []c15Batch{{k: 2, d: [2]int{0, 300}}}
+		case "gateA":
+			cl.batches = []c15Batch{{k: 1, d: [2]int{300, 0}}}
 		default:
 			nb := 1 + rng.Intn(3)
 			for b := 0; b < nb; b++ {
 				bt := c15Batch{k: 1 + rng.Intn(2), pause: rng.Intn(1500)}
 				bt.d[0], bt.d[1] = rng.Intn(1200), rng.Intn(1200)
+				for j := 0; j < 2; j++ {
+					switch rng.Intn(6) {
+					case 0:
+						bt.kind[j] = "t"
+					case 1:
+						bt.kind[j] = "h"
+					}
+				}
 				if rng.Intn(3) == 0 {
 					bt.pause = 0
 				}
@@ -447,6 +526,10 @@ func c15Cycle(rng *rand.Rand, rec *c15Rec, s *Server, cfg c15Cfg, mode string, c
 			pcs := fasthttputil.NewPipeConns()
 			sc := &c15Conn{Conn: pcs.Conn1(), id: cl.id, rec: rec}
 			cc := pcs.Conn2()
+			ln := lns[1+crng.Intn(nl)]
+			if mode == "gateA" {
+				ln = lns[cfg.gateLn]
+			}
 			select {
 			case ln.ch <- sc:
 			case <-ln.closed:
@@ -454,15 +537,42 @@ func c15Cycle(rng *rand.Rand, rec *c15Rec, s *Server, cfg c15Cfg, mode string, c
 			}
 			select {
 			case <-rec.accepted[cl.id]:
-			case <-time.After(5 * time.Second):
+			case <-time.After(12 * time.Second):
 				cl.err = "not accepted"
 				return
 			}
 			br := bufio.NewReader(cc)
+			nrecv := 0
+			// readOne reads the next response.  While nothing arrives it looks every 100 ms whether waiting
+			// still makes sense: once the client has all its answers and Shutdown has returned, or three
+			// complete closeIdleConns rounds have passed it by, it goes away (this only bounds the wait;
+			// whether an idle connection was wrongly left open is judged on the recorded scan steps)
 			readOne := func() bool {
 				var resp Response
-				cc.SetReadDeadline(time.Now().Add(10 * time.Second))
-				if err := resp.Read(br); err != nil {
+				giveUp := time.Now().Add(15 * time.Second)
+				seen := -1
+				for {
+					cc.SetReadDeadline(time.Now().Add(100 * time.Millisecond))
+					err := resp.Read(br)
+					if err == nil {
+						break
+					}
+					if strings.Contains(err.Error(), "timeout") && br.Buffered() == 0 && time.Now().Before(giveUp) {
+						rec.mu.Lock()
+						ret, rounds, called := rec.sdRet, rec.scanEnds, rec.sdCalled
+						rec.mu.Unlock()
+						if nrecv < cl.sent || !called {
+							continue
+						}
+						if seen < 0 {
+							seen = rounds
+						}
+						if !ret && rounds < seen+3 {
+							continue
+						}
+						cl.gaveUp = true
+						return false
+					}
 					if err == io.EOF || strings.Contains(err.Error(), "EOF") || strings.Contains(err.Error(), "closed") {
 						cl.eof = true
 					} else {
@@ -470,8 +580,8 @@ func c15Cycle(rng *rand.Rand, rec *c15Rec, s *Server, cfg c15Cfg, mode string, c
 					}
 					return false
 				}
-				i, _ := strconv.Atoi(string(resp.Header.Peek("X-Idx")))
-				cl.received[i] = true
+				nrecv++
+				cl.received[nrecv] = true
 				return true
 			}
 			alive := true
@@ -494,7 +604,10 @@ func c15Cycle(rng *rand.Rand, rec *c15Rec, s *Server, cfg c15Cfg, mode string, c
 							w = 2
 						}
 					}
-					fmt.Fprintf(&sb, "GET /?d=%d&w=%d HTTP/1.1\r\nHost: x\r\nX-Idx: %d\r\n\r\n", bt.d[j], w, cl.sent)
+					if bt.kind[j] != "" {
+						w = 0
+					}
+					fmt.Fprintf(&sb, "GET /%s?d=%d&w=%d HTTP/1.1\r\nHost: x\r\nX-Idx: %d\r\n\r\n", bt.kind[j], bt.d[j], w, cl.sent)
 				}
 				rec.emit(vfRec{"ev": "cl.send", "c": cl.id, "k": bt.k}) // before the write
 				if _, err := cc.Write([]byte(sb.String())); err != nil {
@@ -522,15 +635,31 @@ func c15Cycle(rng *rand.Rand, rec *c15Rec, s *Server, cfg c15Cfg, mode string, c
 
 	// the Shutdown call
 	sdErr := make(chan error, 1)
-	var sdDur time.Duration
 	callShutdown := func() {
-		t0 := time.Now()
+		rec.mu.Lock()
+		rec.sdCalled = true
+		rec.mu.Unlock()
 		err := s.Shutdown()
-		sdDur = time.Since(t0)
+		if err == nil {
+			rec.mu.Lock()
+			rec.sdRet = true
+			rec.mu.Unlock()
+		}
 		sdErr <- err
 	}
 	runningAtReturn := int32(-1)
 	switch mode {
+	case "gateA":
+		select {
+		case <-rec.gateHit: // an accept loop holds a connection it has not yet counted in s.open: shut down now
+			go callShutdown()
+			// let Shutdown poll at least twice (or return, which it must not), then let the accept loop go on
+			c15WaitFor(func() bool { rec.mu.Lock(); defer rec.mu.Unlock(); return rec.sdRet || rec.scanEnds >= 2 }, 5*time.Second)
+			close(rec.gateCh)
+		case <-time.After(5 * time.Second):
+			go callShutdown()
+			close(rec.gateCh)
+		}
 	case "gateB":
 		// wait until the first request is answered and the connection idles, then shut down
 		c15WaitFor(func() bool { rec.mu.Lock(); defer rec.mu.Unlock(); return rec.idleSeen[1] >= 1 }, 3*time.Second)
@@ -567,38 +696,48 @@ func c15Cycle(rng *rand.Rand, rec *c15Rec, s *Server, cfg c15Cfg, mode string, c
 		vfInfra("c15: Shutdown did not return within 20s")
 		return 0, "", "", true
 	}
-	serveReturned := false
-	select {
-	case <-serveDone:
-		serveReturned = true
-	case <-time.After(2 * time.Second):
+	serveReturned := 0
+	for i := 1; i <= nl; i++ {
+		select {
+		case <-serveDone:
+			serveReturned++
+		case <-time.After(5 * time.Second):
+		}
 	}
-	lnClosed := false
-	select {
-	case <-ln.closed:
-		lnClosed = true
-	default:
+	lnClosed := true
+	for i := 1; i <= nl; i++ {
+		select {
+		case <-lns[i].closed:
+		default:
+			lnClosed = false
+		}
 	}
 	cdone := make(chan struct{})
 	go func() { cwg.Wait(); close(cdone) }()
 	clientsDone := true
 	select {
 	case <-cdone:
-	case <-time.After(12 * time.Second):
+	case <-time.After(40 * time.Second):
 		clientsDone = false
 	}
-	nreq := 0
-	for id := 1; id <= cfg.nconns; id++ {
-		nreq += clients[id].sent
+	if !clientsDone {
+		vfInfra("c15: clients did not finish")
+		return nreqOf(clients), "", "", true
 	}
+	rec.mu.Lock()
+	late := rec.lateStart
+	rec.mu.Unlock()
+	nreq := nreqOf(clients)
 	tag := fmt.Sprintf("mode=%s cos=%v reuse=%v", mode, cfg.cos, cyc > 1)
 	if err != nil {
 		return nreq, "", "", true // only a nil return is constrained by the property
 	}
 	// direct checks for Shutdown() == nil
 	switch {
-	case !serveReturned:
-		return nreq, "serve-not-returned " + tag, "Shutdown returned nil but Serve had not returned 2s later", false
+	case serveReturned != nl:
+		return nreq, "serve-not-returned " + tag, fmt.Sprintf("Shutdown returned nil but only %d of %d Serve calls had returned 5s later", serveReturned, nl), false
+	case late != 0:
+		return nreq, "handler-after-shutdown " + tag, fmt.Sprintf("%d request handler(s) started after Shutdown had returned nil", late), false
 	case !lnClosed:
 		return nreq, "listener-open " + tag, "Shutdown returned nil but the listener was not closed", false
 	case runningAtReturn != 0:
@@ -607,10 +746,6 @@ func c15Cycle(rng *rand.Rand, rec *c15Rec, s *Server, cfg c15Cfg, mode string, c
 		return nreq, "done-never-fired " + tag, fmt.Sprintf("%d handler(s) waiting on ctx.Done() were still waiting 4s later although Shutdown had been called", doneNever.Load()), false
 	case doneViol.Load() != 0:
 		return nreq, "done-not-closed " + tag, fmt.Sprintf("%d handler(s) finished after shutdown had begun and found ctx.Done() open", doneViol.Load()), false
-	case !clientsDone:
-		return nreq, "idle-conn-not-closed " + tag, "a keep-alive connection was still open 12s after Shutdown returned nil", false
-	case mode == "random" && sdDur > 6*time.Second:
-		return nreq, "waited-for-idle " + tag, fmt.Sprintf("Shutdown took %v with handlers of at most a few ms", sdDur), false
 	}
 	rec.mu.Lock()
 	defer rec.mu.Unlock()
@@ -675,6 +810,16 @@ func c15RunServeConnOnly(cos bool) (string, string) {
 	return "", ""
 }
 
+func nreqOf(clients []*c15Client) int {
+	n := 0
+	for _, cl := range clients {
+		if cl != nil {
+			n += cl.sent
+		}
+	}
+	return n
+}
+
 func c15WaitFor(cond func() bool, d time.Duration) bool {
 	dl := time.Now().Add(d)
 	for !cond() {
@@ -698,10 +843,11 @@ func TestVerifC15Shutdown(t *testing.T) {
 		tw := vfNewTrace(t, name)
 		var cfgs []c15Cfg
 		for i := 0; i < ngate; i++ {
-			cfgs = append(cfgs, c15Cfg{mode: "gateB", cos: cos, nconns: 1, cycles: 1 + i%2}, c15Cfg{mode: "gateC", cos: cos, nconns: 1, cycles: 2 - i%2})
+			cfgs = append(cfgs, c15Cfg{mode: "gateB", cos: cos, nconns: 1, cycles: 1 + i%2, lnSeed: rng.Intn(16)}, c15Cfg{mode: "gateC", cos: cos, nconns: 1, cycles: 2 - i%2, lnSeed: rng.Intn(16)},
+				c15Cfg{mode: "gateA", cos: cos, nconns: 1, cycles: 1 + i%2, lnSeed: rng.Intn(16), gateLn: 1 + i%2})
 		}
 		for i := 0; i < ntr; i++ {
-			cfgs = append(cfgs, c15Cfg{mode: "random", cos: cos, nconns: 1 + rng.Intn(4), sdAt: rng.Intn(4000), cycles: 1 + rng.Intn(3)})
+			cfgs = append(cfgs, c15Cfg{mode: "random", cos: cos, nconns: 1 + rng.Intn(4), sdAt: rng.Intn(4000), cycles: 1 + rng.Intn(3), lnSeed: rng.Intn(16)})
 		}
 		for i, cfg := range cfgs {
 			n, nr, key, detail := c15RunOne(t, rng, tw, i+1, cfg)
